@@ -1138,7 +1138,7 @@ func (w *c05World) runSeq(s int, nodes []c05Node, nsteps int, next func(int) *c0
 			}
 			// the model's observers - the kernel's path walk (lstat / stat) and the children of a directory - against what Lstat,
 			// Stat and ReadDir reported, on both sides
-			if (op.name == "stat" || op.name == "lstat" || op.name == "readdir") && c05PlainPath.MatchString(op.p1) {
+			if (op.name == "stat" || op.name == "lstat" || op.name == "readdir" || op.name == "walk") && c05PlainPath.MatchString(op.p1) {
 				w.emitFsObs("fsop", s, i, op, beforeA, a.cat, a.val)
 				w.emitFsObs("fsspec", s, i, op, beforeB, b.cat, b.val)
 			}
@@ -1310,7 +1310,32 @@ func (w *c05World) emitFsObs(kind string, seq, step int, op *c05Op, before map[s
 		return
 	}
 	obs := "res=" + cat
-	if cat == "ok" {
+	if cat == "ok" && op.name == "walk" {
+		// every visited path with its kind, as a set (the order of a walk is the directory order of the file system on the served
+		// side and lexical on package os's side). A visit that reported an error cannot be compared.
+		var ents []string
+		for _, it := range strings.Fields(val) {
+			if strings.Contains(it, "!") {
+				c.Stat(kind + "_walk_with_errors_not_compared")
+				c.Oracle(n, true, "")
+				return
+			}
+			i := strings.LastIndex(it, ":")
+			if i < 0 || i+1 >= len(it) {
+				continue
+			}
+			pth, k := strings.TrimPrefix(it[:i], "$R/"), "f"
+			switch it[i+1] {
+			case 'd':
+				k = "d"
+			case 'L':
+				k = "l"
+			}
+			ents = append(ents, pth+":"+k)
+		}
+		sort.Strings(ents)
+		obs += " ents=" + strings.Join(ents, ";")
+	} else if cat == "ok" {
 		if op.name == "readdir" {
 			var ents []string
 			if val != "" {
